@@ -79,12 +79,13 @@ Record int_obs := mkIntObs {
   io_i32 : option Z;            (* as_i32_or_nothing *)
   io_str_rt : result Z;         (* Int::from_str(to_str) *)
   io_cbor_rt : result Z;        (* Int::from_bytes(to_bytes) *)
-  io_json_rt : result Z         (* serde_json round trip of the Int *)
+  io_json_rt : result Z;        (* serde_json round trip of the Int *)
+  io_meta_json : result text    (* the JSON number decode_metadatum_to_json_str writes for a metadatum holding the Int *)
 }.
 
 Definition int_observe (z : Z) : int_obs :=
   mkIntObs z (Ok (int_serialize z)) (int_as_positive z) (int_as_negative z) (int_as_i32 z)
-           (int_from_str (int_to_str z)) (int_from_bytes (int_serialize z)) (int_from_str (int_to_str z)).
+           (int_from_str (int_to_str z)) (int_from_bytes (int_serialize z)) (int_from_str (int_to_str z)) (meta_int_to_json z).
 
 (* the atomic sources as the harness drives them; None = the API returned an explicit error / no Int *)
 Definition model_int (src : int_src) : option int_obs := option_map int_observe (int_obtain src).
@@ -116,6 +117,8 @@ Definition judge_int_obs (o : int_obs) : verdict :=
         if negb (resZ_eqb (int_from_bytes bs) (Ok z) && resZ_eqb (io_cbor_rt o) (Ok z)) then Fails cls_none
         else if negb (resZ_eqb (io_str_rt o) (Ok z) && resZ_eqb (io_json_rt o) (Ok z))
         then (if (z =? int_min)%Z then Fails cls_from_str_range else Fails cls_none)
+        else if negb (match io_meta_json o with Ok t => resZ_eqb (parse_i128 t) (Ok z) | Err => true | _ => false end)
+        then Fails cls_none                 (* the JSON text of a metadata integer denotes it exactly, or the conversion fails explicitly *)
         else if negb (optN_eqb (io_neg o) (if (z <? 0)%Z then Some (Z.to_N (- z)) else None))
         then (if (z =? int_min)%Z && optN_eqb (io_neg o) (Some 0) then Fails cls_as_negative else Fails cls_none)
         else check (optN_eqb (io_pos o) (if (0 <=? z)%Z then Some (Z.to_N z) else None)
@@ -260,6 +263,7 @@ Record val_obs := mkValObs {
   vo_add_rev : result value;          (* b.checked_add(a) *)
   vo_sub : result value;              (* a.checked_sub(b) *)
   vo_csub : value;                    (* a.clamped_sub(b) *)
+  vo_msub : multiasset;               (* MultiAsset::sub of the two multiassets (empty when absent) *)
   vo_undo : option (result value);    (* (a + b).checked_sub(b) when a + b is Ok *)
   vo_cmp : option Z;                  (* a.compare(b) *)
   vo_lt : bool; vo_le : bool; vo_gt : bool; vo_ge : bool;   (* a < b, a <= b, a > b, a >= b *)
@@ -269,6 +273,7 @@ Record val_obs := mkValObs {
 
 Definition model_val (a b : value) : val_obs :=
   mkValObs (value_checked_add a b) (value_checked_add b a) (value_checked_sub a b) (value_clamped_sub a b)
+           (ma_sub (opt_ma (multiasset_of a)) (opt_ma (multiasset_of b)))
            (match value_checked_add a b with Ok c => Some (value_checked_sub c b) | _ => None end)
            (value_compare a b) (value_lt a b) (value_le a b) (value_gt a b) (value_ge a b)
            (value_eqb a b) (value_is_zero a).
@@ -327,6 +332,7 @@ Definition judge_val (a b : value) (o : val_obs) : verdict :=
         | Ok _ => if negb (coin_underflows a b) && asset_underflows a b then Fails cls_sub_clamps else Fails cls_none
         | _ => Fails cls_none end)
   else if negb (spec_csub a b (vo_csub o)) then Fails cls_none
+  else if negb (spec_csub (mkValue 0 (multiasset_of a)) (mkValue 0 (multiasset_of b)) (mkValue 0 (Some (vo_msub o)))) then Fails cls_none
   else if negb (match vo_add o, vo_undo o with
                 | Ok _, Some (Ok d) => value_eqb_sem_keys d a
                 | Ok _, _ => false
